@@ -513,6 +513,11 @@ def run(R):
     # ---- which operators may refuse to extend their right operand
     _climb_exclusions(R, f, rec, p if not missing else None)
     _rhs_source(R, f)
+    # the operators the climbing loop sees are the operators that were written: the tokenizer takes no operator token back and rewrites
+    # the last token only into the lexical merges (a `-` folded into a following literal changes `a OP b -1` into `a OP b (-1)`)
+    from . import rules_c20
+    from .rules_c16 import RemapRules
+    rules_c20._merge_table(RemapRules(R, "C20.merge", "C13.tokens"), R.need_fn("sqlgrep::parsing::tokenizer::tokenize"))
     # ---- prefix operators
     # the prefix-operator function: the Parser method that builds the Invert (NOT) node
     pinned_ = PR.pinned_fns()
